@@ -334,9 +334,127 @@ def r174(facts, res, R='R17.4', crates=('cfgrammar',), prefixes=('cfgrammar::yac
     res.floor(R, 'reads of FIRST(symbol) as a sequence contribution', n, floor)
 
 
+def _ref_targets(b, l, depth=4):
+    """locals a reference local may point at (through `&mut X`, `&mut *r` and copies)"""
+    out = set()
+    if depth == 0:
+        return out
+    for _bb, kind, rv in b.defs().get(l, ()):
+        if kind != 'stmt':
+            continue
+        if 'ref' in rv:
+            tl, tp = rv['ref']['l'], rv['ref']['p']
+            if tp and tp[0] == 'deref':
+                out |= _ref_targets(b, tl, depth - 1)
+            elif not tp:
+                out.add(tl)
+        elif 'use' in rv:
+            ol = op_local(rv['use'])
+            if ol is not None:
+                out |= _ref_targets(b, ol, depth - 1)
+    return out
+
+
+def _acc_store_blocks(b, accs):
+    """accumulator -> blocks that store something other than the `None` initialiser into it, directly or through a reference"""
+    out = {}
+    for bb, blk in enumerate(b.blocks):
+        if blk.get('cleanup'):
+            continue
+        for st in blk['stmts']:
+            if st['k'] != 'assign':
+                continue
+            l, p = st['lhs']['l'], st['lhs']['p']
+            hit = set()
+            if not p and l in accs:
+                rv = st['rv']
+                if 'agg' in rv and isinstance(rv['agg'], dict) and rv['agg'].get('vname') == 'None':
+                    continue
+                hit = {l}
+            elif p == ['deref']:
+                hit = _ref_targets(b, l) & accs
+            for a in hit:
+                out.setdefault(a, set()).add(bb)
+        t = blk['term']
+        if t['k'] == 'call' and not t['dest']['p'] and t['dest']['l'] in accs:
+            out.setdefault(t['dest']['l'], set()).add(bb)
+    return out
+
+
+def _strip_some(t):
+    """Some(x) -> x ; &v -> v"""
+    while t[0] == 'ref':
+        t = t[1]
+    if t[0] == 'variant' and t[3] == 'Some' and len(t[4]) == 1:
+        return t[4][0], True
+    return t, False
+
+
+def _payload_of(t, acc0):
+    """is `t` the accumulator's old value (as an Option) or the payload of its Some?"""
+    while t[0] in ('ref', 'deref'):
+        t = t[1]
+    if t == acc0:
+        return True
+    if t[0] == 'field' and t[1][0] == 'downcast' and t[1][1] == acc0:
+        return True
+    if t[0] == 'field' and t[1] == acc0:
+        return True
+    return False
+
+
+def _update_evidence(conds, acc0, cand):
+    """What the conditions of a storing path say about candidate vs old value: set of 'none' | 'lower' | 'higher'."""
+    ev = set()
+    for term, val in conds:
+        if not isinstance(val, int):
+            # ('ne', {..}) on the discriminant: Option has two variants, so "not Some" is None
+            if term == ('discr', acc0) and isinstance(val, tuple) and val[0] == 'ne' and 1 in val[1]:
+                ev.add('none')
+            continue
+        if term == ('discr', acc0):
+            if val == 0:
+                ev.add('none')
+            continue
+        if term[0] == 'call' and term[1].endswith('::is_none') and _payload_of(term[2][0], acc0):
+            if val == 1:
+                ev.add('none')
+            continue
+        if term[0] == 'call' and term[1].endswith('::is_some') and _payload_of(term[2][0], acc0):
+            if val == 0:
+                ev.add('none')
+            continue
+        a = b_ = op = None
+        if term[0] == 'bin' and term[1] in ('Lt', 'Le'):
+            op, a, b_ = term[1], term[2], term[3]
+        elif term[0] == 'call' and term[1].rsplit('::', 1)[-1] in ('lt', 'le', 'gt', 'ge') and len(term[2]) == 2:
+            nm = term[1].rsplit('::', 1)[-1]
+            a, b_ = term[2]
+            if nm in ('gt', 'ge'):
+                a, b_ = b_, a
+            op = 'Lt' if nm in ('lt', 'gt') else 'Le'
+        if op is None:
+            continue
+        a0, _ = _strip_some(a)
+        b0, _ = _strip_some(b_)
+        ca, cb = (a0 == cand), (b0 == cand)
+        pa, pb = _payload_of(a, acc0) or _payload_of(a0, acc0), _payload_of(b_, acc0) or _payload_of(b0, acc0)
+        if ca and pb:
+            # cand OP old
+            ev.add('lower' if val else 'higher')
+        elif pa and cb:
+            # old OP cand
+            ev.add('higher' if val else 'lower')
+    return ev
+
+
 def r175(facts, res):
-    """rule_min_costs keeps the LOWER of candidate and best-so-far in every accumulator, rule_max_costs the HIGHER one"""
+    """rule_min_costs keeps the LOWER of candidate and best-so-far in every accumulator, rule_max_costs the HIGHER one.
+    Decided per path of one round of the production loop: whenever an accumulator ends the round with a new value Some(X), the
+    path's conditions say that the old value was None or that X is on the wanted side of it (or X is the type's maximum in the
+    max function); `acc = max(acc, Some(X))` is the same thing through core::cmp."""
     R = 'R17.5'
+    from lrstep import widening_walker
     want = {'rule_min_costs': 'lower', 'rule_max_costs': 'higher'}
     n = 0
     for fname, w in want.items():
@@ -345,33 +463,61 @@ def r175(facts, res):
             res.lost(R, '%s not found' % fname)
             continue
         b = bs[0]
-        accs = {l for l, ty in enumerate(b.locals) if ty['ty'].startswith('core::option::Option<u') and b.name_of(l)}
+        accs = {l for l, ty in enumerate(b.locals) if ty['ty'].startswith('core::option::Option<u') and b.name_of(l) and l > b.arg_count}
+        stores = _acc_store_blocks(b, accs)
+        loops = b.loops()
         found = 0
-        for bb, t in b.calls():
-            c = callee_of(t)
-            if not c or c['name'] not in ('lt', 'gt', 'le', 'ge') or not (c.get('self_ty') or '').startswith('core::option::Option<u') or len(t['args']) != 2:
+        for acc in sorted(stores):
+            inits = [bb for bb, kind, rv in b.defs().get(acc, ()) if kind == 'stmt' and 'agg' in rv and isinstance(rv['agg'], dict) and rv['agg'].get('vname') == 'None']
+            # the production loop: the largest loop holding stores into the accumulator but not its initialisation
+            cands = [h for h in loops if stores[acc] & loops[h] and not any(i in loops[h] for i in inits)]
+            if not cands or not inits:
                 continue
-            r0 = b.op_root(t['args'][0], stop_named=True)[0]
-            r1 = b.op_root(t['args'][1], stop_named=True)[0]
-            a0, a1 = r0 in accs, r1 in accs
-            if a0 == a1:
-                continue        # accumulator against accumulator (the final decision) or neither: not an update test
-            lowerop = c['name'] in ('lt', 'le')
-            # candidate OP accumulator ; or accumulator OP candidate (reversed)
-            direction = ('lower' if lowerop else 'higher') if a1 else ('higher' if lowerop else 'lower')
-            acc = r1 if a1 else r0
+            h = max(cands, key=lambda x: len(loops[x]))
+            wk = widening_walker(b, facts, max_paths=20000)
+            paths = wk.run(start=h, stop=lambda bb, L=loops[h]: bb not in L)
+            if wk.overflow:
+                res.lost(R, 'path explosion in the production loop of %s' % fname)
+                continue
+            key = '%s/%s' % (fname, b.name_of(acc))
+            acc0 = ('widen', b.path, h, acc, ('uninit', acc))
+            bad = None
+            nstore = 0
+            for p in paths:
+                fin = wk.as_value(p.env, wk.read_key(p.env, (acc, ())))
+                if fin == acc0:
+                    continue
+                nstore += 1
+                loc = loc_of(b, max(stores[acc] & set(p.blocks)) if stores[acc] & set(p.blocks) else h)
+                if fin[0] == 'call' and fin[1].rsplit('::', 1)[-1] in ('max', 'min') and len(fin[2]) == 2 and acc0 in fin[2]:
+                    d = 'higher' if fin[1].endswith('max') else 'option-min'
+                    if d != w:
+                        bad = (loc, 'the accumulator becomes %s(old, candidate)%s' % (fin[1].rsplit('::', 1)[-1], ': the minimum of None and Some(c) is None, so the accumulator never takes a value' if d == 'option-min' else ''))
+                    continue
+                x, is_some = _strip_some(fin)
+                if not is_some:
+                    bad = (loc, 'the accumulator ends a round with a value that is not Some(candidate): %s' % (fin,)[:1])
+                    continue
+                if w == 'higher' and x[0] == 'const' and isinstance(x[1], int) and x[1] == (1 << int(re.search(r'Option<u(\d+)', b.lty(acc)).group(1))) - 1:
+                    continue        # the type's maximum is at least as high as anything
+                ev = _update_evidence(p.conds, acc0, x)
+                opposite = 'higher' if w == 'lower' else 'lower'
+                if opposite in ev:
+                    bad = (loc, '%s stores the candidate into `%s` when it is %s than the old value, but every accumulator of this function must keep the %s one: the cost '
+                           'reported for a rule is then not the %s over its productions' % (fname, b.name_of(acc), opposite, w, 'minimum' if w == 'lower' else 'maximum'))
+                elif not (ev & {'none', w}):
+                    bad = (loc, '%s stores the candidate into `%s` on a path that neither found it empty nor compared the candidate with it' % (fname, b.name_of(acc)))
+            if nstore == 0:
+                continue
             found += 1
             n += 1
-            key = '%s/%s' % (fname, b.name_of(acc))
-            if direction == w:
-                res.ok(R, key, loc_of(b, bb), 'the candidate replaces `%s` when it is %s' % (b.name_of(acc), w))
+            if bad:
+                res.bad(R, key, bad[0], bad[1], {'function': b.path})
             else:
-                res.bad(R, key, loc_of(b, bb), '%s keeps the %s of candidate and `%s` (comparison `%s`), but every accumulator of this function must keep the %s one: '
-                        'the cost reported for a rule is then not the %s over its productions' % (fname, direction, b.name_of(acc), c['name'], w, 'minimum' if w == 'lower' else 'maximum'),
-                        {'function': b.path})
+                res.ok(R, key, loc_of(b, h), 'on each of the %d paths of a production round that change `%s`, it was empty or the candidate is the %s one' % (nstore, b.name_of(acc), w))
         if found < 2:
-            res.lost(R, 'expected two candidate-vs-accumulator comparisons in %s, found %d' % (fname, found))
-    res.floor(R, 'accumulator update tests in the cost functions', n, 4)
+            res.lost(R, 'expected two accumulators updated in the production loop of %s, found %d' % (fname, found))
+    res.floor(R, 'accumulators of the cost functions whose update was decided', n, 4)
 
 
 def cost_fn(facts, res, R, name):
